@@ -119,20 +119,75 @@ def configs(tier):
     return out
 
 
+def l3_soft_oracle(sc):
+    """Whole pool, helper threads on: a job that survives its soft limit is
+    signalled exactly once, also while the pool drains after close()."""
+    import signal
+    from harness import l3
+    r = sc.res
+    if r['host_exit'] is not None:
+        return 'a pool thread crashed the host: os._exit(%r)' % r['host_exit']
+    if r['errors']:
+        return 'exception in a pool/worker thread: %r' % (r['errors'],)
+    if r['status'] != 'done' or r['user'][0] != 'done':
+        return ('scenario did not finish: %s %r' % (r['status'],
+                                                    r['describe']),
+                l3.stuck_signature(sc))
+    soft = [k for k in r['kills'] if k[2] == int(signal.SIGUSR1)]
+    k, fn, a, h = r['handles'][0]
+    if len(soft) != 1:
+        return ('the soft-limit signal was sent %d times for one job (%r)'
+                % (len(soft), soft))
+    if not h.ready() or not h._success or h._value != ('slept', a):
+        return ('a job that caught its soft limit once and went on resolved '
+                'as %r' % ((h.ready() and (h._success, h._value)),))
+    return None
+
+
+def l3_configs(tier):
+    T = tier == 'thorough'
+    out = []
+    for name, script in (
+            ('soft-then-close', ['submit:0', 'sleep:2.0', 'close', 'join']),
+            ('soft-then-wait', ['submit:0', 'wait:0', 'close', 'join'])):
+        out.append((dict(name=name, procs=1,
+                         jobs=[('apply', 'sleepy_catch', 3.0)], script=script,
+                         pool=dict(soft_timeout=1.0, timeout=60.0),
+                         oracle='harness.c06:l3_soft_oracle', horizon=100.0),
+                    1 if not T else 2, 4000 if not T else 40000))
+    return out
+
+
 def main(tier, seed, only=None):
     from harness import l2run
 
     def extra(rep):
-        from harness import l1, c01_threads
+        from harness import l1, c01_threads, l3
+        from vmc import explore
         l1.soft_part(rep, tier)
         c01_threads.part(rep, tier, only=('softscan',),
                          name='thread-level-softscan-vs-result')
+        cfgs = l3_configs(tier)
+        for (cfg, b, cap), d in zip(cfgs, l3.explore_split(
+                cfgs, want=12, wall_s=900 if tier == 'thorough' else 200)):
+            found = d.pop('found')
+            st = explore.Stats()
+            st.merge(d)
+            rep.stats('L3:' + cfg['name'], st, delay_bound=b,
+                      subtrees=d.get('subtrees'))
+            for msg, ch, sig, log in found:
+                rep.violation(msg + '\nconfig=%s' % cfg['name'],
+                              dict(harness='l3', config=cfg, choices=ch),
+                              signature=sig)
     return l2run.run('C06', tier, seed, configs(tier), [
         'the soft-limit signal reaches the worker process the job handle '
         'names; what it does there is decided by the L1 part'], only, extra)
 
 
 def replay(rp):
+    if rp.get('harness') == 'l3':
+        from harness import l3
+        return l3.replay(rp)
     if rp.get('harness') == 'l1':
         from harness import l1
         return l1.replay(rp)
